@@ -14,7 +14,11 @@ What happens to an error is copied from the code:
   channel, joins the workers and returns the first error **without restarting the workers that
   were not joined yet** (the handles were `mem::take`n);
 * updater: `schedule_commit` = `purge_deletes?; segment_manager.commit; save_metas?; let _ = gc`;
-  `save_metas` = `sync_directory?; atomic_write(meta.json)?` — all-or-nothing;
+  `save_metas` = `sync_directory?; atomic_write(meta.json)?` — all-or-nothing — followed, when
+  the code has it (parameter `sy`, instantiated with the extracted
+  `Gen.SAVE_METAS_SYNC_AFTER_WRITE`), by a second `sync_directory?` that makes the rename durable:
+  if that barrier fails the call returns `Err` although `meta.json` already denotes the
+  attempted commit (visible, durability unknown); `store_meta` and GC are skipped;
 * merge thread: error (or panic) → merge future, registers untouched; `end_merge` on the updater:
   `advance_deletes?` (registers untouched) ; `segment_manager.end_merge` ; `save_metas?` ; gc;
 * GC: delete errors ignored, undeleted files stay managed; lock / `.managed.json` errors make
@@ -52,6 +56,11 @@ inductive Phase where
   | purge
   /-- `sync_directory` + `atomic_write(meta.json)` -/
   | saveMeta
+  /-- the `sync_directory` that follows the `atomic_write(meta.json)` in `save_metas`, when the
+      code has one (`Gen.SAVE_METAS_SYNC_AFTER_WRITE`): `meta.json` is already replaced -/
+  | saveSync2
+  /-- the same barrier inside `end_merge`'s `save_metas` -/
+  | endMergeSync2
   | gcLock | gcDelete | gcManaged
   /-- reads and writes of `merge()` on a merge thread -/
   | mergeThread
@@ -164,10 +173,13 @@ def commitRegs (w : Writer) : Writer := { w with committed := w.committed ++ w.u
 def published (w : Writer) : Writer := { (commitRegs w) with active := (commitRegs w).committed, acked := [] }
 
 /-- the commit task on the updater thread: `purge_deletes?; segment_manager.commit; save_metas?; let _ = gc` -/
-def updaterCommit (f : Plan) (s : St) (w : Writer) : St × Res :=
+def updaterCommit (sy : Bool) (f : Plan) (s : St) (w : Writer) : St × Res :=
   if w.killed then ({ s with writer := some (markErr w) }, .err)
   else if f .purge then ({ s with writer := some (markErr w) }, .err)
   else if f .saveMeta then ({ s with writer := some (markErr (commitRegs w)) }, .err)
+  else if sy && f .saveSync2 then
+    -- `meta.json` is replaced; the error returns before `store_meta` and before GC
+    ({ s with metaSegs := (commitRegs w).committed, writer := some (markErr (commitRegs w)) }, .err)
   else ((gcRun f { s with metaSegs := (published w).committed, writer := some (published w) } (published w)).1, .ok)
 
 def mergedRegs (s : St) (w : Writer) : Writer := { w with committed := [⟨s.nextSeg, content w.committed⟩] }
@@ -181,7 +193,7 @@ def stale (s : St) : Bool :=
 def bombed (w : Writer) (d : Nat) : Writer :=
   { w with alive := false, workerErr := true, queue := [], acked := w.acked ++ [d] }
 
-def call (cap : Nat) (f : Plan) (s : St) : Call → St × Res
+def call (sy : Bool) (cap : Nat) (f : Plan) (s : St) : Call → St × Res
   | .newWriter =>
     match s.writer with
     | some _ => (s, .err)                                               -- the harness drops a writer before opening the next
@@ -210,13 +222,13 @@ def call (cap : Nat) (f : Plan) (s : St) : Call → St × Res
       -- prepare_commit: new channel (alive again), join the workers
       if !w.workers then
         -- nobody received the queued documents; they are dropped with the old channel
-        updaterCommit f s { w with alive := true, queue := [] }
+        updaterCommit sy f s { w with alive := true, queue := [] }
       else if w.workerErr then
         -- first error returned; the handles were taken: no worker is restarted
         ({ s with writer := some (markErr { w with alive := true, workers := false, workerErr := false, queue := [] }) }, .err)
       else if !w.queue.isEmpty && f .worker then
         ({ (newFiles s) with writer := some (markErr { w with alive := true, workers := false, queue := [] }) }, .err)
-      else updaterCommit f (flushS s w) (flushW s { w with alive := true })
+      else updaterCommit sy f (flushS s w) (flushW s { w with alive := true })
   | .rollback =>
     match s.writer with
     | none => (s, .err)
@@ -238,6 +250,8 @@ def call (cap : Nat) (f : Plan) (s : St) : Call → St × Res
       else if f .mergeThread then ({ (newFiles s) with writer := some (markErr w) }, .err)
       else if f .endMergePurge then ({ (newFiles s) with writer := some (markErr w) }, .err)
       else if f .endMergeSave then ({ (newFiles s) with writer := some (markErr (mergedRegs s w)) }, .err)
+      else if sy && f .endMergeSync2 then
+        ({ (newFiles s) with metaSegs := (mergedRegs s w).committed, writer := some (markErr (mergedRegs s w)) }, .err)
       else ((gcRun f { (newFiles s) with metaSegs := (mergedPublished s w).committed,
                                          writer := some (mergedPublished s w) } (mergedPublished s w)).1, .ok)
   | .gc =>
@@ -251,13 +265,16 @@ def call (cap : Nat) (f : Plan) (s : St) : Call → St × Res
     if f .reload then (s, .err) else ({ s with searcher := s.metaSegs }, .ok)
   | .removeLock => (if stale s then { s with lockFile := false } else s, .ok)
 
-def run (cap : Nat) (F : Nat → Plan) (i : Nat) (s : St) : List Call → St × List Res
+def run (sy : Bool) (cap : Nat) (F : Nat → Plan) (i : Nat) (s : St) : List Call → St × List Res
   | [] => (s, [])
   | c :: cs =>
-    ((run cap F (i + 1) (call cap (F i) s c).1 cs).1,
-     (call cap (F i) s c).2 :: (run cap F (i + 1) (call cap (F i) s c).1 cs).2)
+    ((run sy cap F (i + 1) (call sy cap (F i) s c).1 cs).1,
+     (call sy cap (F i) s c).2 :: (run sy cap F (i + 1) (call sy cap (F i) s c).1 cs).2)
 
-def final (cap : Nat) (F : Nat → Plan) (cs : List Call) : St := (run cap F 0 init cs).1
+def final (sy : Bool) (cap : Nat) (F : Nat → Plan) (cs : List Call) : St := (run sy cap F 0 init cs).1
+
+/-- does `save_metas` of the code sync the directory again after the rename of `meta.json`? -/
+def codeSync2 : Bool := Gen.SAVE_METAS_SYNC_AFTER_WRITE == 1
 
 /-- capacity of the document channel in the code -/
 def codeCap : Nat := Gen.PIPELINE_MAX_SIZE_IN_DOCS
